@@ -782,7 +782,11 @@ func (f *Frame) oblName(class, detail string) string {
 	if len(d) > 90 {
 		d = d[:90]
 	}
-	return fmt.Sprintf("%s#%s:%s", fnDisplayName(f.rootFn()), class, f.inlinePath()+d)
+	tag := ""
+	if rc := f.c.rootCon; rc != nil {
+		tag = rc.Tag
+	}
+	return fmt.Sprintf("%s%s#%s:%s", fnDisplayName(f.rootFn()), tag, class, f.inlinePath()+d)
 }
 
 func (f *Frame) rootFn() *ssa.Function {
